@@ -116,8 +116,11 @@ class C11(Prop):
                     for pos, j in enumerate(order): rk[j] = pos + 1; vv[j] = big if pos == 0 else vals[pos - 1]
                     P.append(rk); Vv.append(vv)
             pv = list(range(n)); rng.shuffle(pv); pa = list(range(m)); rng.shuffle(pa)
-            yield dict(entry={"KARV": "KARV.symmetry", "PRV": "LambdaPRV.symmetry"}[rule], family=("elicit_dominant" if i % 5 == 3 else "elicit"), rule=rule, P=P, V=Vv, pv=pv, pa=pa, k=k,
-                       zi=True, tb="accept", want_out=True, eclass="profile")
+            c = dict(entry={"KARV": "KARV.symmetry", "PRV": "LambdaPRV.symmetry"}[rule], family=("elicit_dominant" if i % 5 == 3 else "elicit"), rule=rule, P=P, V=Vv, pv=pv, pa=pa, k=k,
+                     zi=True, tb="accept", want_out=True, eclass="profile")
+            if i % 5 in (1, 4):      # a one-indexed memoising LambdaElicitor that another rule (lambda-PRV, lambda = 1) has used on the same profile before
+                c.update(eclass="lambda", ezi=False, reuse_elicitor=True, family="elicit_reused_elicitor")
+            yield c
 
     def variants(self, case):
         key = "V" if "V" in case else "P"
